@@ -102,6 +102,7 @@ struct SharedProgress {        // lives in MAP_SHARED memory when a run is isola
   volatile long step;
   volatile uint64_t hash;
   volatile long okSteps;
+  char tag[48];                // hazard named by the harness for the current step (see Ctx::hazard)
 };
 
 class Ctx {
@@ -129,6 +130,10 @@ public:
   void rejected() { ++rejSteps; outcome("rej"); }
   void fault(const std::string& kind) { ++faults[kind]; ++faultsFired; }
   void probe(const std::string& name) { ++probes[name]; }
+  // names a property of the INPUT of the call about to be made (e.g. "extreme-number"): when that call does not return, or dies in
+  // a sanitizer, the signature of the outcome carries the name, so that a known finding can be listed for that trigger only
+  void hazard(const char* name);
+  std::string hazardTag;
   void state(uint64_t h) { if (stateSink) stateSink->push_back(h); }
   [[noreturn]] void fail(const std::string& cls, const std::string& sig, const std::string& detail);
   // For harnesses that can re-synchronise their model: if `sig` is a listed known finding, count the hit and return true
